@@ -13,9 +13,12 @@ and the HEAP in which Go's slice sharing between these functions is made explici
 Modelling notes
 * `map[string]int` is an association list with unique keys in first-insertion order; reading a missing
   key gives Go's zero value 0 (that is Go's semantics of `m[k]`, not a convenience default).
-* `strings.Builder.Len()` after `WriteRune` counts BYTES: `byteLen` sums `Char.utf8Size`, so the rune/byte
-  mismatch of the loop on non-ASCII input is in the model.  `strings.ToUpper` is `Char.toUpper`, right on
-  ASCII only: theorems carry `Ascii s`, the generators stay in ASCII.
+* Since /repo 053f18d the loop counts LETTERS (`currentCodonLetters`, incremented per rune of the `range`, reset
+  with the builder), no longer `strings.Builder.Len()` (bytes): the model carries that counter; a model `Char` is
+  one rune, so the framing is modelled for every valid Unicode string.  `strings.ToUpper` is `Char.toUpper`, which
+  is Go's function on ASCII only.  ASSUMPTION (gen/c08.py): strings.ToUpper maps rune by rune (keeps the number
+  of letters) and maps no non-ASCII letter to A, C, G or T — then the weights of every table over ACGT triplets
+  are the same under both functions, whatever the sequence.
 * Go `int` is 64 bit; the model's `Int` is unbounded.  Assumption (named in gen/c08.py, gen/c18.py): all
   weights and their sums stay below 2^53 (coding sequences have at most 10^5 letters).
 * Floats: `CompromiseCodonTable` computes with float64.  The function is written once, over an `Arith`
@@ -54,18 +57,16 @@ def mapIncr : FreqMap → Str → FreqMap
 /-- `m[k] = 1` for a key that is absent -/
 def mapInit (m : FreqMap) (key : Str) : FreqMap := m ++ [(key, 1)]
 
-/-- `strings.Builder.Len()` of a builder that received the runes of `s` through `WriteRune` -/
-def byteLen (s : Str) : Nat := (s.map Char.utf8Size).sum
-
-/-- one iteration of `for _, letter := range sequence`; state = (currentCodon, codonFrequencyHashMap) -/
-def freqStep (st : Str × FreqMap) (letter : Char) : Str × FreqMap :=
+/-- one iteration of `for _, letter := range sequence`; state = (currentCodon, currentCodonLetters, codonFrequencyHashMap) -/
+def freqStep (st : Str × Nat × FreqMap) (letter : Char) : Str × Nat × FreqMap :=
   let cur := st.1 ++ [letter]                      -- currentCodon.WriteRune(letter)
-  if byteLen cur = 3 then                          -- if currentCodon.Len() == 3
-    if mapHas st.2 cur then ([], mapIncr st.2 cur) --   present: ++
-    else ([], mapInit st.2 cur)                    --   absent: = 1       ; then currentCodon.Reset()
-  else (cur, st.2)
+  let n := st.2.1 + 1                              -- currentCodonLetters++
+  if n = 3 then                                    -- if currentCodonLetters == 3
+    if mapHas st.2.2 cur then ([], 0, mapIncr st.2.2 cur)   --   present: ++
+    else ([], 0, mapInit st.2.2 cur)                        --   absent: = 1 ; then Reset(), currentCodonLetters = 0
+  else (cur, n, st.2.2)
 
-def getCodonFrequency (sequence : Str) : FreqMap := (sequence.foldl freqStep ([], [])).2
+def getCodonFrequency (sequence : Str) : FreqMap := (sequence.foldl freqStep ([], 0, [])).2.2
 
 /-! ## OptimizeTable (on the contents of the table's AminoAcids array) -/
 
